@@ -87,6 +87,13 @@ def run(ctx):
         "+-2^30, never reached); priq capacities 0 / negative (every Push refused: len >= capacity, as "
         "DESIGN 4/C12 states) and MaxInt; AddAnyway (issued while the lane is not full), async.Q.Size, "
         "WaitClose / WaitClear with a live context (issued once closed / cleared) and with an ended one",
+        "the item value is a dimension: about a fifth of the adds carry an untyped nil (not for SyncQueue, whose "
+        "Pop reports 'closed' as nil), a typed nil pointer, 0, \"\", a slice / map / func (uncomparable), a "
+        "plain struct, or the very pointer of an earlier item; the trace logs the value class (val) and a pop is "
+        "compared by class; priq entries also come as plain and uncomparable values",
+        "race rounds 'prod': producers asleep in AddAnyway on a full lane, then Pops / close / another producer "
+        "released together (QueueWake models blocked producers: they get on when there is room, are refused "
+        "once closed)",
         "q.Q / priq expose no IsClosed: their state is bound through replies and the final drain only",
     ]
     return ctx.finish(
